@@ -779,8 +779,31 @@ func (ls *LState) isStarted() bool {
 
 func (ls *LState) kill() {
 	ls.Dead = true
-	if ls.ctxCancelFn != nil {
-		ls.ctxCancelFn()
+	if ls.ctxOwned != nil {
+		ls.ctxOwned.dead = true
+		ls.ctxOwned.release()
+	}
+}
+
+// threadContext accounts for the child context NewThread derives for a
+// coroutine. The contexts of the coroutines it creates derive from that
+// context in turn, so it is cancelled (which releases it) only once the
+// coroutine is dead and no live coroutine's context derives from it.
+type threadContext struct {
+	cancel   context.CancelFunc
+	parent   *threadContext
+	children int
+	dead     bool
+}
+
+func (tc *threadContext) release() {
+	for tc != nil && tc.dead && tc.children == 0 && tc.cancel != nil {
+		tc.cancel()
+		tc.cancel = nil
+		if tc.parent != nil {
+			tc.parent.children--
+		}
+		tc = tc.parent
 	}
 }
 
@@ -1413,17 +1436,15 @@ func (ls *LState) NewThread() (*LState, context.CancelFunc) {
 	thread.Env = ls.Env
 	var f context.CancelFunc = nil
 	if ls.ctx != nil {
-		// derive from the context that was attached by the user, not from the
-		// creating coroutine's own child context (which is cancelled when the
-		// creator dies)
-		base := ls.ctx
-		if ls.ctxCancelFn != nil && ls.ctxBase != nil {
-			base = ls.ctxBase
-		}
 		thread.mainLoop = mainLoopWithContext
-		thread.ctx, f = context.WithCancel(base)
-		thread.ctxCancelFn = f
-		thread.ctxBase = base
+		thread.ctx, f = context.WithCancel(ls.ctx)
+		thread.ctxOwned = &threadContext{cancel: f}
+		if ls.ctxOwned != nil && ls.ctxOwned.cancel != nil {
+			// ls.ctx may be the child context of the coroutine ls: that one
+			// must outlive ls for as long as the new coroutine can run
+			thread.ctxOwned.parent = ls.ctxOwned
+			ls.ctxOwned.children++
+		}
 	}
 	return thread, f
 }
@@ -2086,9 +2107,6 @@ func (ls *LState) SetMx(mx int) {
 func (ls *LState) SetContext(ctx context.Context) {
 	ls.mainLoop = mainLoopWithContext
 	ls.ctx = ctx
-	// coroutines created from now on derive their contexts from ctx, not from
-	// the context this state inherited when NewThread created it
-	ls.ctxBase = nil
 }
 
 // Context returns the LState's context. To change the context, use WithContext.
@@ -2101,7 +2119,6 @@ func (ls *LState) RemoveContext() context.Context {
 	oldctx := ls.ctx
 	ls.mainLoop = mainLoop
 	ls.ctx = nil
-	ls.ctxBase = nil
 	return oldctx
 }
 
